@@ -133,7 +133,7 @@ def gen(rng, tier):
         cases.append(make_case(rng, nested=(i % 5 == 0), consumer=(i % 2 == 0), large=True))
     for i in range(16 if tier == "quick" else 300):
         cases.append(make_case(rng, consumer=(i % 2 == 0), siblings=True))
-    for i in range(12 if tier == "quick" else 120):
+    for i in range(12 if tier == "quick" else 48):
         cases.append(make_release_case(rng, consumer=(i % 2 == 0), rejected=(i % 3 != 0)))
     return cases
 
